@@ -94,7 +94,7 @@ def compare(scn, vals, flags, errors, kind="ekf"):
     return out, n, trace
 
 
-def replay_cpp(ctx, scns, cse_settings=(False, True), kind="ekf", presentation=None, via_entry=False, keep_trace=False):
+def replay_cpp(ctx, scns, cse_settings=(False, True), kind="ekf", presentation="random", via_entry=False, keep_trace=False):
     """Returns list of dict(scn, cse, status in {'ok','dropped','generate-failed','build-failed','run-failed'},
     mismatches, values, detail)."""
     jobs = []
@@ -105,7 +105,9 @@ def replay_cpp(ctx, scns, cse_settings=(False, True), kind="ekf", presentation=N
             os.makedirs(outdir, exist_ok=True)
             jobs.append({"scn": s, "clean": clean, "cse": cse, "dir": outdir})
     ctx.log("generating C++ for %d (scenario, CSE) pairs" % len(jobs))
-    gen = workers.run_tasks([("tasks", "cpp_generate", (j["clean"], j["cse"], j["dir"], kind, presentation, via_entry), 180) for j in jobs],
+    def _pres(j):
+        return ("random:cpp:%s:%s:%s" % (ctx.seed, j["scn"].get("_id", ""), j["cse"])) if presentation == "random" else presentation
+    gen = workers.run_tasks([("tasks", "cpp_generate", (j["clean"], j["cse"], j["dir"], kind, _pres(j), via_entry), 180) for j in jobs],
                             procs=ctx.cores)
     results = []
     build_jobs = []
